@@ -1,5 +1,6 @@
 import inspect
 import json
+from collections.abc import Sequence as AbstractSequence, Set as AbstractSet, Iterable as AbstractIterable
 from utype.parser.rule import Rule, LogicalType, SEQ_TYPES, MAP_TYPES
 from utype.parser.field import ParserField
 from utype.parser.cls import ClassParser
@@ -119,6 +120,10 @@ class JsonSchemaGenerator:
         for types, pri in constant.PRIMITIVE_MAP.items():
             if issubclass(origin, types):
                 return pri
+        if not issubclass(origin, (str, bytes, bytearray, memoryview)):
+            # abstract containers (typing.Sequence[...] / Iterable[...] / Set[...]) are parsed to a list
+            if issubclass(origin, (AbstractSequence, AbstractSet, AbstractIterable)):
+                return "array"
         return self.DEFAULT_PRIMITIVE
 
     def _get_args(self, r: Type[Rule]) -> dict:
@@ -136,7 +141,7 @@ class JsonSchemaGenerator:
             else:
                 name = 'prefixItems'
                 return {name: args_res}
-        elif issubclass(origin, SEQ_TYPES):
+        elif issubclass(origin, SEQ_TYPES) or self._get_primitive(origin) == 'array':
             name = 'items'
             return {name: args_res[0]}
         elif issubclass(origin, MAP_TYPES):
